@@ -1,6 +1,6 @@
 """C08 -- Rock Ridge fidelity for an independent SUSP/RRIP reader.  DESIGN.md section 8.8."""
 from harness import common, nsoracles, sysimg, sysprops
-from harness.props import celeaf, namesleaf, nlinkleaf, rrleaf, rrplaceleaf, relocleaf
+from harness.props import celeaf, namesleaf, nlinkleaf, rrleaf, rrplaceleaf, relocleaf, masterrrleaf
 
 MODULE = 'C08'
 RECIPES = ['ce_gap_plus', 'ce_gap_exact', 'ce_gap_minus', 'deep_tree', 'reloc_churn', 'reloc_same_names', 'long_symlinks', 'fat_dir_churn', 'symlink_ce_release', 'ce_second_block_release']
@@ -19,6 +19,7 @@ def run(ctx):
     nlinkleaf.correspondence(ctx)
     rrplaceleaf.leaf_correspondence(ctx)
     relocleaf.correspondence(ctx)
+    masterrrleaf.correspondence(ctx)
     quick = ctx.tier == 'quick'
     sysprops.run_oracle(ctx, 'C08', sysprops.histories(ctx, 120 if quick else 2500, RECIPES,
                                                        dict(allow_refusals=False, long_rr=0.3, max_depth=6),
